@@ -71,6 +71,18 @@ impl Drop for MuxStream {
     }
 }
 
+#[cfg(all(penguin_rs_verif, feature = "std"))]
+impl MuxStream {
+    #[inline]
+    fn verif_emit(&self, kind: crate::verif::Kind) {
+        crate::verif::emit(
+            crate::verif::key_of(&self.psh_send_remaining),
+            self.flow_id,
+            kind,
+        );
+    }
+}
+
 impl MuxStream {
     /// Poll for another `Push` frame to fill the internal buffer.
     ///
@@ -129,6 +141,8 @@ impl MuxStream {
     #[inline]
     fn increment_psh_recvd_since(&mut self) {
         trace!("received a frame");
+        #[cfg(all(penguin_rs_verif, feature = "std"))]
+        self.verif_emit(crate::verif::Kind::FrameConsumed);
         let new = self.psh_recvd_since + 1;
         self.psh_recvd_since = new;
         if new >= self.rwnd_threshold {
@@ -161,11 +175,17 @@ impl MuxStream {
         // Both `close_flow` and `shutdown` in `inner.rs` set this flag with
         // `Relaxed` ordering because they are not releasing any access, but
         // instead acting based on the WebSocket or the stream's states.
+        #[cfg(all(penguin_rs_verif, feature = "std"))]
+        self.verif_emit(crate::verif::Kind::WritePollBegin);
         if self.finish_sent.load(Ordering::Relaxed) {
             // The stream has been closed. Return an error
             debug!("stream has been closed, returning `BrokenPipe`");
+            #[cfg(all(penguin_rs_verif, feature = "std"))]
+            self.verif_emit(crate::verif::Kind::WriteRefusedClosed);
             return Poll::Ready(None);
         }
+        #[cfg(all(penguin_rs_verif, feature = "std"))]
+        self.verif_emit(crate::verif::Kind::WriteAllowedSeen);
         loop {
             // Atomic ordering: we don't really have a critical section here,
             // so `Relaxed` should be enough.
@@ -174,7 +194,11 @@ impl MuxStream {
             if original == 0 {
                 // We have reached the congestion window limit. Wait for an `Acknowledge`
                 debug!("waiting for `Acknowledge`");
+                #[cfg(all(penguin_rs_verif, feature = "std"))]
+                self.verif_emit(crate::verif::Kind::CreditSeenZero);
                 self.writer_waker.register(cx.waker());
+                #[cfg(all(penguin_rs_verif, feature = "std"))]
+                self.verif_emit(crate::verif::Kind::WakerRegistered);
                 // Since all writes start with `poll_flush`, we don't need to
                 // flush here. There is actually no way to `poll_flush` without
                 // magic.
@@ -187,6 +211,8 @@ impl MuxStream {
                 .compare_exchange_weak(original, new, Ordering::AcqRel, Ordering::Relaxed)
                 .is_ok()
             {
+                #[cfg(all(penguin_rs_verif, feature = "std"))]
+                self.verif_emit(crate::verif::Kind::CreditTaken { left: new });
                 break;
             }
             trace!("congestion window race condition, retrying");
